@@ -60,6 +60,20 @@ func fixedCases() []Case {
 		out = append(out, Case{Kind: "ast", Cls: "clean", Entry: e, Opts: all, Doc: lead})
 	}
 	out = append(out, Case{Kind: "ast", Cls: "clean", Entry: "batch", Opts: all, Doc: showcase(), Warm: []string{warmPool[0], warmPool[3]}})
+	// list items whose own text starts with what looks like a marker: in a list paragraph that is text of the item
+	// (a reader that strips "the bullet" there loses it), two lists of each kind in one document, items after the ninth
+	markers := []Blk{
+		{K: "ul", Mark: "-", Items: []Item{{B: []Blk{para(Inl{K: "code", S: "*p"})}}, {B: []Blk{para(tx("• dot"))}}, {B: []Blk{para(Inl{K: "code", S: "- dash"}, tx("+ plus"))}}}},
+		{K: "ol", Start: 3, Items: []Item{{B: []Blk{para(Inl{K: "code", S: "1. one"})}}, {B: []Blk{para(tx("☐ box 2) two"))}}}},
+		para(tx("between the lists")),
+		{K: "ul", Mark: "+", Loose: true, Items: []Item{{B: []Blk{para(tx("second bullet list"))}}, {B: []Blk{para(tx("and its second item"))}}}},
+		{K: "ol", Start: 1, Items: []Item{{B: []Blk{para(tx("i1"))}}, {B: []Blk{para(tx("i2"))}}, {B: []Blk{para(tx("i3"))}}, {B: []Blk{para(tx("i4"))}}, {B: []Blk{para(tx("i5"))}},
+			{B: []Blk{para(tx("i6"))}}, {B: []Blk{para(tx("i7"))}}, {B: []Blk{para(tx("i8"))}}, {B: []Blk{para(tx("i9"))}}, {B: []Blk{para(tx("i10"))}}, {B: []Blk{para(tx("i11"))}}}},
+		{K: "code", Fenced: true, Lines: []string{"- not an item", "1. not an item"}},
+	}
+	for _, e := range []string{"bytes", "file"} {
+		out = append(out, Case{Kind: "ast", Cls: "clean", Entry: e, Opts: all, Doc: markers})
+	}
 	// roots, fractions and scripts whose index / argument is a digit, a lower- or upper-case letter, a command,
 	// an expression, empty - inline, display, in a cell
 	fdoc := []Tok{{S: "Roots $", N: 1}}
